@@ -745,6 +745,17 @@ def run_process(ip: Interposer, fn: Any, stdin_bytes: bytes = b"", cwd: str | No
     except Exception:  # noqa: BLE001
         _ss = None
         saved_rand = None
+    # tempfile's random name sequence is a nondeterminism source too (mkstemp-based writers)
+    import tempfile as _tf
+
+    saved_seq = getattr(_tf, "_name_sequence", None)
+    try:
+        seq = _tf._RandomNameSequence()  # type: ignore[attr-defined]
+        seq._rng = random.Random(uid_seed ^ 0x5EED)
+        seq._rng_pid = os.getpid()
+        _tf._name_sequence = seq  # type: ignore[attr-defined]
+    except Exception:  # noqa: BLE001
+        pass
     old = (sys.stdin, sys.stdout, sys.stderr)
     old_cwd = _REAL["getcwd"]()
     stdin, stdout, stderr, out_sink, err_sink = make_streams(ip, stdin_bytes)
@@ -789,6 +800,10 @@ def run_process(ip: Interposer, fn: Any, stdin_bytes: bytes = b"", cwd: str | No
         _REAL["chdir"](old_cwd)
         if _ss is not None:
             _ss._RANDOM = saved_rand
+        try:
+            _tf._name_sequence = saved_seq  # type: ignore[attr-defined]
+        except Exception:  # noqa: BLE001
+            pass
         for s in (stdin, stdout, stderr):
             try:
                 s.close()
